@@ -16,7 +16,7 @@ META = {
              "points and one experiment repetition; distinct by input hash; non-trivial = the list contains a 0 or a 1 and another value"),
     "assumptions": ["both sides are library code; the oracle is their agreement as stated (heralded, stabilizer+projected, calibration, cycle length; 0-round exception)"],
     "floors": {
-        "quick": {"experiments": 380, "order_kernel_first": 80, "long_round_blocks": 3, "all_qubits_queried_first": 120, "order_kernel_between_two_circuits": 80, "ancillas_compared": 600, "zero_round_blocks": 80, "one_round_blocks": 80},
+        "quick": {"experiments": 380, "order_kernel_first": 80, "long_round_blocks": 3, "prior_kernel_same_rounds": 120, "all_qubits_queried_first": 120, "order_kernel_between_two_circuits": 80, "ancillas_compared": 600, "zero_round_blocks": 80, "one_round_blocks": 80},
         "thorough": {"experiments": 3900, "ancillas_compared": 6000, "zero_round_blocks": 800, "one_round_blocks": 800},
     },
 }
@@ -36,6 +36,7 @@ def gen_input(rng: random.Random) -> Dict[str, Any]:
         inp["rounds"] = list(dict.fromkeys(inp["rounds"]))
     inp["order"] = rng.choice(["circuit_first", "kernel_first", "kernel_between_two_circuits"])
     inp["query_all_first"] = rng.random() < 0.5
+    inp["prior_kernel_same_rounds"] = rng.random() < 0.5
     return inp
 
 
@@ -58,6 +59,13 @@ def check_input(inp: Dict[str, Any], acc: Acc):
     def make_circuit():
         return construct_repetition_code_multi_round_circuit(qec_cycles=rounds, description=description, initial_state=libgen.initial_state_of(inp))
 
+    # other experiments of the same process: a kernel for the same rounds on a smaller, differently named register is built first
+    if inp.get("prior_kernel_same_rounds"):
+        from qce_circuit.connectivity.intrf_channel_identifier import QubitIDObj
+        acc.count("prior_kernel_same_rounds")
+        RepetitionExperimentKernel(rounds=list(rounds), heralded_initialization=True, qutrit_calibration_points=True,
+                                   involved_data_qubit_ids=[QubitIDObj("P0"), QubitIDObj("P2")], involved_ancilla_qubit_ids=[QubitIDObj("P1")],
+                                   experiment_repetitions=1).kernel_cycle_length
     # the statement does not prescribe which of the two is built first from one description
     order = inp.get("order", "circuit_first")
     acc.count("order_" + order)
